@@ -33,7 +33,7 @@ def make_model_cfg(b, k, maxc, naddr, invariants, view=True, symmetry=True):
 def leg_a(ctx):
     cfgs = [(4, 2, 4, 5)]
     if ctx.thorough:
-        cfgs += [(4, 2, 5, 6), (4, 3, 5, 6)]
+        cfgs += [(4, 3, 4, 5), (3, 2, 6, 7)]      # (B=4,K=2,MAXC=5) and B=5 do not finish in the budget (measured: > 15 min)
     for (b, k, maxc, naddr) in cfgs:
         res = tlc.run('RoutingTable', make_model_cfg(b, k, maxc, naddr, INVS_MODEL), ctx, timeout=3400,
                       label=f'RT-B{b}K{k}C{maxc}')
